@@ -4,11 +4,14 @@ package main
 
 import (
 	"bytes"
+	"flag"
 	"go/ast"
 	"go/printer"
 	"go/token"
+	"go/types"
 	"reflect"
 	"strconv"
+	"strings"
 )
 
 // go f(a, b)  =>  { f__ := f; a0__ := a; a1__ := b; sched__.Go(func() { f__(a0__, a1__) }) }
@@ -345,3 +348,112 @@ func (fc *fileCtx) rewriteMapAccesses() {
 }
 
 func strconvQuote(s string) string { return strconv.Quote(s) }
+
+// ---- level 3, selected packages: struct fields reached through a pointer ------
+
+var fieldsF = flag.String("fields", "sys,cron", "packages (relative dirs) whose pointer-reached struct field accesses are instrumented at level 3")
+
+func (fc *fileCtx) wantFields(rel string) bool {
+	for _, p := range strings.Split(*fieldsF, ",") {
+		if strings.TrimSpace(p) == rel {
+			return true
+		}
+	}
+	return false
+}
+
+// rewriteFieldAccesses wraps p.f (p a pointer, f a field) in *vmem.FR(&p.f, site)
+// / *vmem.FW(&p.f, site): a scheduling point at shared locations and an access
+// record for the happens-before race detector.
+func (fc *fileCtx) rewriteFieldAccesses() {
+	pkgName := fc.file.Name.Name
+	for _, d := range fc.file.Decls {
+		fd, ok := d.(*ast.FuncDecl)
+		if !ok || fd.Body == nil {
+			continue
+		}
+		fn := funcName(fd, pkgName)
+		writes := map[ast.Expr]bool{}
+		skip := map[ast.Expr]bool{}
+		var markSkip func(e ast.Expr)
+		markSkip = func(e ast.Expr) {
+			for {
+				skip[e] = true
+				switch x := e.(type) {
+				case *ast.SelectorExpr:
+					e = x.X
+				case *ast.ParenExpr:
+					e = x.X
+				case *ast.IndexExpr:
+					e = x.X
+				case *ast.StarExpr:
+					e = x.X
+				default:
+					return
+				}
+			}
+		}
+		ast.Inspect(fd.Body, func(n ast.Node) bool {
+			switch st := n.(type) {
+			case *ast.AssignStmt:
+				for _, l := range st.Lhs {
+					writes[unparen(l)] = true
+				}
+			case *ast.IncDecStmt:
+				writes[unparen(st.X)] = true
+			case *ast.UnaryExpr:
+				if st.Op == token.AND {
+					markSkip(st.X)
+				}
+			case *ast.CallExpr:
+				// method calls on a field with pointer receiver take its address implicitly:
+				// x.f.M() — keep x.f addressable by not copying: handled by *FR(&x.f) which is addressable
+			case *ast.RangeStmt:
+				if st.Tok == token.ASSIGN {
+					if st.Key != nil {
+						writes[unparen(st.Key)] = true
+					}
+					if st.Value != nil {
+						writes[unparen(st.Value)] = true
+					}
+				}
+			}
+			return true
+		})
+		replaceExprs(fd.Body, func(e ast.Expr) ast.Expr {
+			se, ok := e.(*ast.SelectorExpr)
+			if !ok || skip[e] {
+				return nil
+			}
+			sel := fc.info.Selections[se]
+			if sel == nil || sel.Kind() != types.FieldVal {
+				return nil
+			}
+			// base must be a pointer (explicit deref => addressable) and a plain chain
+			bt := fc.typeOf(se.X)
+			if bt == nil {
+				return nil
+			}
+			if _, isPtr := bt.Underlying().(*types.Pointer); !isPtr {
+				return nil
+			}
+			if !isPure(se.X) {
+				return nil
+			}
+			if len(sel.Index()) != 1 {
+				return nil // promoted through an embedded field: leave alone
+			}
+			if _, isFunc := sel.Type().Underlying().(*types.Signature); isFunc {
+				return nil
+			}
+			f := "FR"
+			if writes[e] {
+				f = "FW"
+			}
+			fc.needVmem = true
+			fc.rp.FieldAccess++
+			site := fn + ":" + fc.exprText(se)
+			return &ast.ParenExpr{X: &ast.StarExpr{X: call("vmem__", f, &ast.UnaryExpr{Op: token.AND, X: se}, &ast.BasicLit{Kind: token.STRING, Value: strconv.Quote(site)})}}
+		})
+	}
+}
